@@ -128,7 +128,7 @@ def step (s : St) (w : List String) : St × String :=
                 match k.gets[row]? with
                 | none => []
                 | some g =>
-                  let v : Option (Option Str) := match src with | .null => none | .text t => some t
+                  let v : Option (Option Str) := match src with | .text t => some t | _ => none
                   Record.setOutcomes Gen.colors ob.s (defaultsRec k) g.name (ptyOf k e.act row) v
           let alts := ("refused", fmtDump ob.s) :: okAlts.map (fun r => ("ok", fmtDump r))
           match out.ret with
@@ -137,6 +137,64 @@ def step (s : St) (w : List String) : St × String :=
             let dm := fmtDump (k.dump out.obj)
             let s' := if ret.isOk then (okAlts.find? (fun r => fmtDump r == dm)).getD ob.s else ob.s
             ((s.setObj ki { ob with m := out.obj, s := s' }).1 |> fun objs => { objs := objs, tok := s.tok + 1 },
+             line (if ret.isOk then "ok" else "refused") dm (fmtRet ret) alts)
+    | _, _ => (s, "bad-op")
+  | ["y", "setv", ks, nm, ty, num] =>
+    match ks.toNat?, parseName nm with
+    | some ki, some name =>
+      match s.objs[ki]? with
+      | none => (s, "bad-op")
+      | some ob =>
+        if name.isEmpty ∨ ty.length ≠ 1 then (s, "bad-op") else
+        let t := ty.front
+        -- the number as the driver stores it in a C object of type t
+        let x? : Option Val :=
+          if t == 'f' ∨ t == 'd' then
+            match convFloat (if t == 'f' then 24 else 53) (if t == 'f' then 128 else 1024) num.toUTF8.toList with
+            | .val f u => if u = num.length then some (.flt f) else none
+            | _ => none
+          else if t == 'y' ∨ t == 'n' ∨ t == 'u' ∨ t == 'i' ∨ t == 'c' then
+            match num.toInt? with
+            | some n =>
+              let inR : Bool := match t with
+                | 'y' => decide (0 ≤ n ∧ n ≤ 255) | 'n' => decide (-32768 ≤ n ∧ n ≤ 32767) | 'u' => decide (0 ≤ n ∧ n ≤ 4294967295)
+                | 'c' => decide (0 ≤ n ∧ n ≤ 127) | _ => decide (-2147483648 ≤ n ∧ n ≤ 2147483647)
+              if inR then some (if t == 'c' then .chr n.toNat else .int n) else none
+            | none => none
+          else none
+        match x? with
+        | none => (s, "bad-op")
+        | some x =>
+          let k := ob.kind
+          let out := k.setProp Gen.colors ob.m name (.typed t x) s.tok
+          -- S: refused without change, or the property reads back as the value given
+          let okAlts : List Record.Rec :=
+            match findSet k.sets name with
+            | none => []
+            | some e =>
+              match canonRow k e.act with
+              | none => []
+              | some row =>
+                match k.gets[row]? with
+                | none => []
+                | some g =>
+                  let shown : Val := match e.act, x with
+                    | .clip _, .int n => Record.showClip n.toNat
+                    | .conv 'f' _, .int n => if t == 'i' then .flt (Fl.norm n 0) else x
+                    | .conv 'd' _, .int n => if t == 'i' then .flt (Fl.norm n 0) else x
+                    | .linePos _, .int n => if t == 'i' then .flt (Fl.norm n 0) else x
+                    | _, _ => x
+                  match ptyOf k e.act row, (Record.get ob.s g.name).getD (.int 0), shown with
+                  | .pointX, .pt _ y, .flt f => [Record.set ob.s g.name (.pt f y)]
+                  | .pointY, .pt x0 _, .flt f => [Record.set ob.s g.name (.pt x0 f)]
+                  | _, _, _ => [Record.set ob.s g.name shown]
+          let alts := ("refused", fmtDump ob.s) :: okAlts.map (fun r => ("ok", fmtDump r))
+          match out.ret with
+          | .unsup => (s, line "unsupported" (fmtDump (k.dump ob.m)) "unsup" [("*", "*")])
+          | ret =>
+            let dm := fmtDump (k.dump out.obj)
+            let s' := if ret.isOk then (okAlts.find? (fun r => fmtDump r == dm)).getD ob.s else ob.s
+            ({ objs := s.objs.set ki { ob with m := out.obj, s := s' }, tok := s.tok + 1 },
              line (if ret.isOk then "ok" else "refused") dm (fmtRet ret) alts)
     | _, _ => (s, "bad-op")
   | ["y", "get", ks, nm] =>
